@@ -220,3 +220,12 @@ Proof.
         (conj plain_step_law (conj steps_compose_law (conj filter_step_law (conj comparison_filter_law (conj and_or_values exists_law)))))))))))))))).
 Qed.
 Print Assumptions C08_step_meanings.
+
+(* M6 (second review): the fuel the model passes is never what decides an answer, on ARBITRARY inputs -- also for the loops
+   whose exhaustion is an ordinary value (None, Ok None, Ok buf, PErr, the input itself), about which `<> Err EFuel` says
+   nothing: any fuel above the one the model passes gives the same answer (FuelIndep.v) *)
+From JB Require FuelIndep.
+Theorem C08_fuel_is_never_decisive :
+  forall k bs i len j, (length bs < k)%nat -> Walk.rd_words k bs i len j = Walk.rd_words (S (length bs)) bs i len j.
+Proof. exact FuelIndep.rd_words_any_fuel. Qed.
+Print Assumptions C08_fuel_is_never_decisive.
